@@ -508,3 +508,15 @@ def Desc.wf (d : Desc) : Bool :=
   | _ => true
 
 end Capella.Pods
+
+namespace Capella.Pods
+
+/-- every `languages` child has a `bodies` partner (what Capella writes) -/
+def Balanced (s : Spec) : Prop := (langs s).length = (bodies s).length
+
+/-- what reading key `k` returns after `v` was assigned to it: `v`, or for linked text the
+rendering of the escaped form -/
+def specView (P : Params) (k v : Str) : Str :=
+  if specAlias k = kLinked then P.unescLinked ((P.escLinked v).getD []) else v
+
+end Capella.Pods
